@@ -424,6 +424,11 @@ pub(crate) fn decode_length_prefixed_string<'a>(bytes: &'a[u8], value: &mut Stri
     }
 
     let decode_utf8_result = std::str::from_utf8(&mutable_bytes[..value_length])?;
+    if decode_utf8_result.contains('\0') {
+        let message = "decode_length_prefixed_string - Utf-8 string value contains the null character U+0000";
+        error!("{}", message);
+        return Err(GneissError::new_decoding_failure(message));
+    }
     *value = decode_utf8_result.to_string();
     Ok(&mutable_bytes[(value_length)..])
 }
@@ -450,6 +455,11 @@ pub(crate) fn decode_optional_length_prefixed_string<'a>(bytes: &'a[u8], value: 
     }
 
     let decode_utf8_result = std::str::from_utf8(&mutable_bytes[..value_length])?;
+    if decode_utf8_result.contains('\0') {
+        let message = "decode_optional_length_prefixed_string - Utf-8 string value contains the null character U+0000";
+        error!("{}", message);
+        return Err(GneissError::new_decoding_failure(message));
+    }
     *value = Some(decode_utf8_result.to_string());
     Ok(&mutable_bytes[(value_length)..])
 }
@@ -483,6 +493,11 @@ pub(crate) fn decode_length_prefixed_optional_string<'a>(bytes: &'a[u8], value: 
     }
 
     let decode_utf8_result = std::str::from_utf8(&mutable_bytes[..value_length])?;
+    if decode_utf8_result.contains('\0') {
+        let message = "decode_length_prefixed_optional_string - Utf-8 string value contains the null character U+0000";
+        error!("{}", message);
+        return Err(GneissError::new_decoding_failure(message));
+    }
     *value = Some(decode_utf8_result.to_string());
     Ok(&mutable_bytes[(value_length)..])
 }
